@@ -50,6 +50,10 @@ impl Default for RoundingMode {
     /// It is initially set to [RoundingMode::RoundHalfEven], but can be
     /// changed using the fn [RoundingMode::set_default].
     fn default() -> Self {
+        #[cfg(fpdec_verif)]
+        crate::verif::emit(crate::verif::Event::ModeRead(
+            DFLT_ROUNDING_MODE.with(|m| *m.borrow()),
+        ));
         DFLT_ROUNDING_MODE.with(|m| *m.borrow())
     }
 }
@@ -59,6 +63,8 @@ impl RoundingMode {
     /// Sets the default RoundingMode for the current thread.
     pub fn set_default(mode: Self) {
         DFLT_ROUNDING_MODE.with(|m| *m.borrow_mut() = mode);
+        #[cfg(fpdec_verif)]
+        crate::verif::emit(crate::verif::Event::ModeSet(mode));
     }
 }
 
